@@ -215,6 +215,20 @@ func parseStrModel(s string, m map[string]string) {
 	}
 }
 
+// p7Model: a flag set that validateFlags accepts apart from the given strings (for native replay
+// through the VerifH_flags harness).
+func p7Model(strs map[string]string) map[string]string {
+	m := map[string]string{"qps": "float:1", "numRows": "#x0000000000000001", "payloadSize": "#x0000000000000001", "str:probeType": "noop",
+		"project_ok": "true", "instance_name_ok": "true", "database_name_ok": "true", "instanceConfig_ok": "true"}
+	for k, v := range strs {
+		m["str:"+k] = v
+		if strings.Contains(v, "/") {
+			m[k+"_ok"] = "false"
+		}
+	}
+	return m
+}
+
 // runP7 is the body of the pseudo-entry "P7_flags" of package spanner_prober (main).
 func runP7(res *RunResult, prog *ssa.Program, mainPkg *ssa.Package) {
 	vf := mainPkg.Func("validateFlags")
@@ -275,7 +289,7 @@ func runP7(res *RunResult, prog *ssa.Program, mainPkg *ssa.Package) {
 	need := []string{"project", "instance_name", "database_name", "instanceConfig"}
 	for _, f := range need {
 		if flagLit[f] == "" {
-			res.Findings = append(res.Findings, Finding{Kind: "assert", Label: "C18: flag " + f + " is not validated against a regular expression", Model: map[string]string{}})
+			res.Findings = append(res.Findings, Finding{Kind: "assert", Label: "C18: accepted flag set whose project/instance/database/instance_config did not pass a regular-expression test", Model: p7Model(map[string]string{f: "x/../y"}), Where: "flag " + f + " is not tested against any regular expression in validateFlags"})
 			res.Obligations++
 			return
 		}
@@ -324,7 +338,7 @@ func runP7(res *RunResult, prog *ssa.Program, mainPkg *ssa.Package) {
 			res.Discharged++
 		case "sat":
 			res.Sat++
-			res.Findings = append(res.Findings, Finding{Kind: "assert", Label: q.label, Model: map[string]string{"str:" + f: m["s"]}})
+			res.Findings = append(res.Findings, Finding{Kind: "assert", Label: "C18: accepted flag set whose project/instance/database/instance_config did not pass a regular-expression test", Model: p7Model(map[string]string{f: m["s"]}), Where: q.label})
 		default:
 			res.Unknown++
 			res.Status = "UNSUPPORTED: string solver " + r + " on " + q.label
@@ -350,7 +364,7 @@ func runP7(res *RunResult, prog *ssa.Program, mainPkg *ssa.Package) {
 		res.Discharged++
 	case "sat":
 		res.Sat++
-		res.Findings = append(res.Findings, Finding{Kind: "assert", Label: q.label, Model: map[string]string{"str:project": m["p"], "str:instance_name": m["i"], "str:database_name": m["d"]}})
+		res.Findings = append(res.Findings, Finding{Kind: "assert", Label: "C18: resource name built from accepted flags has extra path segments", Model: p7Model(map[string]string{"project": m["p"], "instance_name": m["i"], "database_name": m["d"]}), Where: q.label})
 	default:
 		res.Unknown++
 		res.Status = "UNSUPPORTED: string solver " + r + " on " + q.label
